@@ -384,6 +384,9 @@ def _num(e):
 
 
 def run(ctx):
+    from ..lints import check_caches
+
+    check_caches(ctx, "C16-D5 caches", ['evolution'])
     check_guard(ctx)
     check_trotter(ctx)
     check_method_guard(ctx)
